@@ -360,6 +360,15 @@ void
 #endif
 			}
 
+		    /* Prune columns [0:jj-1] using column jj. This must be done
+		       before column jj is released: every column that prunes a
+		       given supernode is one of its etree ancestors, and an
+		       ancestor only proceeds past column jj after jj is released.
+		       Pruning after the release let two threads partition the
+		       same subscript list at the same time. */
+		    pxgstrf_pruneL(jj, perm_r, pivrow, nseg, segrep,
+				   &repfnz[k], xprune, ispruned, Glu);
+
 		    SLU_MT_VERIF_EVENT(SLU_EV_COL_RELEASE, pnum, jj, 0, 0, 0);
                     /* release column "jj", so that the other processes
                        waiting for this column can proceed */
@@ -373,10 +382,6 @@ void
 		      return 0;
 
 		    SLU_MT_VERIF_EVENT(SLU_EV_UCOL_DONE, pnum, jj, 0, 0, 0);
-		    /* Prune columns [0:jj-1] using column jj */
-		    pxgstrf_pruneL(jj, perm_r, pivrow, nseg, segrep,
-				   &repfnz[k], xprune, ispruned, Glu);
-
 		    /* Reset repfnz[] for this column */
 		    pxgstrf_resetrep_col (nseg, segrep, &repfnz[k]);
 
